@@ -92,7 +92,7 @@ static void c06_run(vf_case *c)
                 vf_viol(c, "reuse-changed-perm_c-or-etree", "step %d %s: perm_c/etree were modified although they are inputs for this Fact", step, opn[op]);
             if (op == 2 && (info == 0 || info == n + 1)) { if (memcmp(pr_in, D.perm_r, sizeof(int) * (size_t)n)) { vf_tag(c, "rowperm-abandoned"); c->counters[1]++; } else c->counters[2]++;
                 if (D.stat.expansions > 0) { vf_tag(c, use_ws ? "reuse-expansion=workspace" : "reuse-expansion=malloc"); c->counters[5]++; } }
-            free(pr_in); free(pc_in); free(et_in);
+            free(pc_in); free(et_in);
             factored_ok = (info == 0 || info == n + 1);
             if (info < 0 || (info > n + 1 && !use_ws)) vf_viol(c, "info-unexpected", "step %d %s: info=%lld", step, opn[op], (long long)info);
             if (!factored_ok) {
@@ -107,20 +107,25 @@ static void c06_run(vf_case *c)
                     xdrv_free(&D2); free(tv);
                 }
                 if (info > n + 1) { D.have_LU = 0; }
-                continue;
+                free(pr_in); continue;
             }
             /* per-step oracles on this step's matrix */
-            if (xdrv_check_A_scaling(&D, &idx0, V, why, sizeof why)) { vf_viol(c, "step-A-scaling", "step %d %s: %s", step, opn[op], why); break; }
-            if (!is_perm(D.perm_r, n) || !is_perm(D.perm_c, n)) { vf_viol(c, "step-perm", "step %d %s: permutation not a bijection", step, opn[op]); break; }
-            if (structure_ok(P, &D.L, &D.U, n, n, 0, why, sizeof why)) { vf_viol(c, "step-structure", "step %d %s: %s", step, opn[op], why); break; }
+            if (xdrv_check_A_scaling(&D, &idx0, V, why, sizeof why)) { vf_viol(c, "step-A-scaling", "step %d %s: %s", step, opn[op], why); free(pr_in); break; }
+            if (!is_perm(D.perm_r, n) || !is_perm(D.perm_c, n)) { vf_viol(c, "step-perm", "step %d %s: permutation not a bijection", step, opn[op]); free(pr_in); break; }
+            if (structure_ok(P, &D.L, &D.U, n, n, 0, why, sizeof why)) { vf_viol(c, "step-structure", "step %d %s: %s", step, opn[op], why); free(pr_in); break; }
             {   vf_mat F; xdrv_factored_matrix(&D, &F); ldc *Ld = malloc(sizeof(ldc) * (size_t)n * n), *Ud = malloc(sizeof(ldc) * (size_t)n * n);
                 expand_LU(P, &D.L, &D.U, n, n, Ld, Ud);
                 ld q = factor_identity_ratio(P, &F, D.perm_r, D.perm_c, Ld, Ud, n, cf);
                 if (!(q <= 1.0L)) vf_viol(c, "step-factor-identity", "step %d %s: |Pr*A*Pc - L*U| exceeds the bound by %.3Lg", step, opn[op], q);
                 if (check_udiag(P, Ud, n, why, sizeof why)) vf_viol(c, "step-U-diagonal", "step %d %s: %s", step, opn[op], why);
                 ld wl; if (check_multipliers(P, Ld, n, n, xo.DiagPivotThresh, why, sizeof why, &wl)) vf_viol(c, "step-multiplier-bound", "step %d %s: %s", step, opn[op], why);
+                { int dec = 0, und = 0;      /* pivot policy: the diagonal is taken whenever it passes the threshold test, except where a remembered pivot row was kept */
+                  if (check_diag_preference_reuse(P, D.perm_r, D.perm_c, Ld, Ud, &D.L, n, n, xo.DiagPivotThresh, pr_in, &dec, &und, why, sizeof why))
+                      vf_viol(c, op == 2 ? "step-diagonal-not-preferred-after-abandoned-reuse" : "step-diagonal-not-preferred", "step %d %s: %s", step, opn[op], why);
+                  c->counters[6] += dec; }
                 long pm = (long)(q * 1000); if (pm > c->counters[3]) c->counters[3] = pm;
                 free(Ld); free(Ud); mat_free(&F); }
+            free(pr_in);
         } else {
             vf_desc(c, " FACTORED(nrhs=%d,t=%d)", nrhs, (int)xo.Trans); vf_tag(c, "op=FACTORED");
             set_rhs(&D, r, B0, nrhs); xo.Fact = FACTORED; take_hash(&D, &h0);
@@ -138,7 +143,7 @@ static void c06_run(vf_case *c)
         if (D.nrhs > 0) {
             if (xdrv_check_B_scaling(&D, xo.Trans, B0, why, sizeof why)) vf_viol(c, "step-B-scaling", "step %d: %s", step, why);
             int judge = 1;
-            if (xo.IterRefine != NOREFINE) { vf_mat F; xdrv_factored_matrix(&D, &F); ld cond = dense_cond1(&F, NULL, NULL, NULL, NULL); mat_free(&F); ld sg = xdrv_skeel_sigma(&D, xo.Trans); if (!(n * P->eps * cond * sg < 1e-2L) || D.info == n + 1) judge = 0; }
+            if (xo.IterRefine != NOREFINE) { vf_mat F; xdrv_factored_matrix(&D, &F); ld cond = dense_cond1(&F, NULL, NULL, NULL, NULL); mat_free(&F); ld sg = xdrv_skeel_sigma(&D, xo.Trans); ld eta = xdrv_solver_cond(&D); if (eta > cond) cond = eta; if (!(n * P->eps * cond * sg < 1e-2L) || D.info == n + 1) judge = 0; }
             if (judge) { int nf; ld q = xdrv_scaled_residual(&D, xo.Trans, cf, &nf);
                 if (nf) vf_viol(c, "step-X-nonfinite", "step %d: non-finite X", step);
                 else if (!(q <= 1.0L)) vf_viol(c, "step-residual", "step %d (%s): residual exceeds the factor-derived bound by %.3Lg (trans=%d equed=%c)", step, opn[op], q, (int)xo.Trans, D.equed[0]);
